@@ -83,3 +83,55 @@ Definition run_json (t : Z) (a : list sexp) : sexp :=
   | 402, [j] => enc_res enc_event (parse_event (dec_json j))
   | _, _ => SL [SI (-1)]
   end.
+
+(* ---------- abstract Dezyne files (specification side of C05) ---------- *)
+From Dznpy Require Import Spec.DznFile.
+
+Definition dec_fdir (x : sexp) : fdir := match dec_Z x with 0 => FIn | 1 => FOut | _ => FInOut end.
+Definition dec_dformal (x : sexp) : dformal :=
+  match x with SL [n; t; d] => {| df_name := dec_str n; df_type := dec_ids t; df_dir := dec_fdir d |}
+  | _ => {| df_name := []; df_type := []; df_dir := FIn |} end.
+Definition dec_devent (x : sexp) : devent :=
+  match x with
+  | SL [n; d; r; fs] => {| de_name := dec_str n; de_dir := if dec_bool d then EOut else EIn; de_ret := dec_ids r;
+                           de_formals := dec_list dec_dformal fs |}
+  | _ => {| de_name := []; de_dir := EIn; de_ret := []; de_formals := [] |} end.
+Definition dec_dport (x : sexp) : dport :=
+  match x with
+  | SL [n; t; d; i] => {| dp_name := dec_str n; dp_type := dec_ids t; dp_dir := if dec_bool d then PRequires else PProvides;
+                          dp_injected := dec_bool i |}
+  | _ => {| dp_name := []; dp_type := []; dp_dir := PProvides; dp_injected := false |} end.
+Definition dec_dtype (x : sexp) : dtype :=
+  match x with
+  | SL [SI 0; n; fs] => DEnum (dec_ids n) (dec_strs fs)
+  | SL [SI 1; n; lo; hi] => DSubInt (dec_ids n) (dec_Z lo) (dec_Z hi)
+  | _ => DEnum [] [] end.
+Definition dec_endpoint (x : sexp) : dendpoint :=
+  match x with SL [p; i] => (dec_str p, dec_opt dec_str i) | _ => ([], None) end.
+
+Fixpoint dec_ddecl (x : sexp) : ddecl :=
+  match x with
+  | SL [SI 0; n; SL body] => DNs (dec_ids n) ((fix go (l : list sexp) := match l with [] => [] | y :: r => dec_ddecl y :: go r end) body)
+  | SL [SI 1; n; ts; es] => DItf (dec_ids n) (dec_list dec_dtype ts) (dec_list dec_devent es)
+  | SL [SI 2; n; ps] => DComp (dec_ids n) (dec_list dec_dport ps)
+  | SL [SI 3; n; ps] => DForeign (dec_ids n) (dec_list dec_dport ps)
+  | SL [SI 4; n; ps; is_; bs] =>
+    DSys (dec_ids n) (dec_list dec_dport ps)
+         (dec_list (fun i => match i with SL [a; b] => (dec_str a, dec_ids b) | _ => ([], []) end) is_)
+         (dec_list (fun b => match b with SL [l; r] => (dec_endpoint l, dec_endpoint r) | _ => (([], None), ([], None)) end) bs)
+  | SL [SI 5; t] => DType (dec_dtype t)
+  | SL [SI 6; n; v] => DExtern (dec_ids n) (dec_str v)
+  | SL [SI 7; n] => DImport (dec_str n)
+  | SL [SI 8; n] => DFile (dec_str n)
+  | SL [SI 9; c] => DUnknown (dec_str c)
+  | SL [SI 10; j] => DJunk (dec_json j)
+  | _ => DJunk JNull
+  end.
+
+Definition run_dznfile (t : Z) (a : list sexp) : sexp :=
+  match t, a with
+  | 403, [ex; wc; SL f] =>
+      let df := map dec_ddecl f in
+      SL [enc_json (to_json (dec_bool ex) (dec_bool wc) df); enc_fc (flatten_decls df); enc_bool (wf_file df)]
+  | _, _ => SL [SI (-1)]
+  end.
